@@ -10,7 +10,7 @@ import re
 from .. import client as C
 from ..absint import Interp, State, Const, Top, Sym, Adt, Ref, UNIT, TyRef
 from ..models import compile_models, some, NONE
-from ..shared import sym_iter_models, segments
+from ..shared import sym_iter_models, segments, protected_iter_spec_models
 from ..facts import AnchorMissing
 
 ST = "stun_agent::st_cred_mech::ShortTermCredentialClient"
@@ -49,6 +49,11 @@ def slice_iter_model():
     def m_iter(interp, fn, args, st, site, frame):
         return [(Adt("symiter", 0, ()), st)]
     return [(r"^core::slice::<impl \[T\]>::iter$|^core::slice::<impl \[stun_rs::StunAttribute\]>::iter$|slice::<impl \[.*\]>::iter$", m_iter)]
+
+
+def wire_summary_yielded(choices):
+    seq = [v for n, v in choices if n == "wire.next" and v != "end"]
+    return ("MessageIntegrity" in seq), ("MessageIntegritySha256" in seq), seq
 
 
 def wire_summary(choices):
@@ -313,32 +318,56 @@ def r7_2_st_send(ctx, prog, rule="R7.2"):
 # long-term (R8.x) - see lt section below
 
 def lt_r17(ctx, prog, rule):
-    try:
-        paths, info = explore_lt_recv(ctx, prog)
-    except AnchorMissing as e:
-        ctx.anchor_missing(rule, str(e))
-        return
-    seen = {}
-    for pa in paths:
-        got = lt_outcome(pa)
-        if got["ret"] != "Err(Discarded)":
-            continue
-        d = lt_desc(pa)
-        bad = []
-        for w in got["writes"]:
-            bad.append("write %s" % (".".join(w[2]),))
-        for m in got["marker"]:
-            if m != "insert":
-                bad.append("marker %s" % m)
-            elif d["cls"] == "Indication" or d["reliable"] == 1:
-                bad.append("marker inserted for cls=%s reliable=%s" % (d["cls"], d["reliable"]))
-        key = lt_key(d)
-        ok = not bad
-        if key not in seen or not ok:
-            seen[key] = (ok, "; ".join(bad) or "no state change (marker: %s)" % got["marker"], pa)
-    for key, (ok, why, pa) in sorted(seen.items()):
-        ctx.ob(rule, "lt-discarded:%s" % key, ok, why, info["where"], replay=None if ok else pa.describe())
-    ctx.floor(rule, "long-term Discarded path classes", len(seen), 10)
+    """long-term part of R17.2, compositional: every function on the receive path is explored with its
+    workspace callees opaque; on each path returning Err(Discarded) the function's own writes must be
+    empty and the marker may only be inserted for a non-indication on unreliable transport."""
+    total = 0
+    for fn, models in (("recv_message", ()), ("process_error_response", "iter+lt"), ("process_success_response", "iter"),
+                       ("process_error", ()), ("process_unauthenticated_error_response", ()),
+                       ("process_stale_nonce_error_response", ())):
+        ms = []
+        if models == "iter+lt":
+            ms = lt_iter_models(prog) + lt_models()
+        elif models == "iter":
+            ms = lt_iter_models(prog)
+        if fn == "recv_message":
+            step = [r"LongTermCredentialClient::(recv_message|change_state)$", r"stun_rs::message::StunMessage::class$", r"\{closure"]
+            paths, info = C.explore_fn(prog, LT + "::recv_message", "lt", step)
+        elif fn == "process_error_response":
+            paths, info = C.explore_fn(prog, LT + "::process_error_response", "lt",
+                                       STEP_COMMON + [r"LongTermCredentialClient::process_error_response$"], extra_models=ms)
+        else:
+            paths, info = _explore_lt_fn(prog, fn, models=ms)
+        ctx.fn(info["body"])
+        seen = {}
+        for pa in paths:
+            ret = _ret_str(pa.ret)
+            if ret != "Err(Discarded)":
+                continue
+            w = _lt_writes(pa)
+            marker = [C.short(e[1]).split("::")[-1] for e in pa.calls
+                      if e[3] is not None and tuple(e[3][:2]) == ("lt", "validator") and "HashSet" in e[1]]
+            cls = None
+            for nme, v in pa.choices:
+                if str(nme).startswith("variant(msg.") and v in ("Request", "Indication", "SuccessResponse", "ErrorResponse"):
+                    cls = v
+            rel = pa.choice(r"is_reliable$")
+            bad = []
+            if w:
+                bad.append("writes %s" % [t for t, _v in w])
+            for m in marker:
+                if m != "insert":
+                    bad.append("marker %s" % m)
+                elif cls == "Indication" or rel == 1:
+                    bad.append("marker inserted for cls=%s reliable=%s" % (cls, rel))
+            key = "%s:cls=%s,reliable=%s,marker=%s" % (fn, cls, rel, "+".join(marker))
+            ok = not bad
+            if key not in seen or not ok:
+                seen[key] = (ok, "; ".join(bad) or "no state change", pa)
+        for key, (ok, why, pa) in sorted(seen.items()):
+            ctx.ob(rule, "lt-discarded:%s" % key, ok, why, info["where"], replay=None if ok else pa.describe())
+        total += len(seen)
+    ctx.floor(rule, "long-term Discarded path classes", total, 8)
 
 
 LT_KINDS = ["ErrorCode", "Realm", "Nonce", "PasswordAlgorithms", "MessageIntegrity", "MessageIntegritySha256",
@@ -347,7 +376,7 @@ LT_KINDS = ["ErrorCode", "Realm", "Nonce", "PasswordAlgorithms", "MessageIntegri
 
 def explore_lt_recv(ctx, prog):
     kinds = attr_kinds(prog, LT_KINDS)
-    models = sym_iter_models(kinds, label="wire") + slice_iter_model() + lt_models()
+    models = lt_iter_models(prog) + lt_models()
     paths, info = C.explore_fn(prog, LT + "::recv_message", "lt", STEP_LT, extra_models=models)
     ctx.fn(info["body"])
     for p in info["stepped"]:
@@ -355,6 +384,14 @@ def explore_lt_recv(ctx, prog):
     if info["bounded"]:
         ctx.violation("explore", "lt-recv:bounded", "loop bound hit", info["where"])
     return paths, info
+
+
+KIND_CLASS = {"MessageIntegrity": "MI", "MessageIntegritySha256": "SHA", "Fingerprint": "FP"}
+
+
+def lt_iter_models(prog):
+    kinds = attr_kinds(prog, LT_KINDS)
+    return protected_iter_spec_models(kinds, KIND_CLASS, label="wire") + slice_iter_model()
 
 
 def lt_models():
@@ -392,7 +429,7 @@ def lt_desc(pa):
             d["mac"] = v
         elif n == "error_code":
             d["code"] = v
-    d["mi"], d["sha"], d["seq"] = wire_summary(pa.choices)
+    d["mi"], d["sha"], d["seq"] = wire_summary_yielded(pa.choices)
     kinds = set(d["seq"])
     d["has"] = {k: (k in kinds) for k in ("ErrorCode", "Realm", "Nonce", "PasswordAlgorithms")}
     return d
@@ -418,3 +455,559 @@ def lt_outcome(pa):
         if e[3] is not None and tuple(e[3]) == ("lt", "validator", "transactions"):
             marker.append(C.short(e[1]).split("::")[-1])
     return {"ret": ret, "writes": writes, "marker": marker}
+
+
+# ================================================================================================
+# long-term credentials (C08)
+
+def _ret_str(r):
+    if isinstance(r, tuple) and r and r[0] == "Result::Err":
+        e = r[1]
+        return "Err(%s)" % (e.split("::")[-1] if isinstance(e, str) else (e[0] if isinstance(e, tuple) else e))
+    if r == "Result::Ok" or (isinstance(r, tuple) and r and r[0] == "Result::Ok"):
+        return "Ok"
+    return repr(r)[:80]
+
+
+def _lt_writes(pa):
+    out = []
+    for w in pa.writes:
+        if w[0] == "write" and (w[1] == "lt" or "lt.params" in str(w[1])):
+            tgt = ".".join(str(x) for x in w[2])
+            if w[1] != "lt":
+                tgt = "params.*." + tgt
+            out.append((tgt, w[3]))
+    return out
+
+
+def _opt(v):
+    """'Some' / 'None' / None of an abstract Option value"""
+    if v == "Option::None":
+        return "None"
+    if isinstance(v, tuple) and v and v[0] == "Option::Some":
+        return "Some"
+    return None
+
+
+def r8_1_decoration(ctx, prog, rule="R8.1"):
+    ctx.rule(rule, "long-term request decoration per state: first request strips the 8 credential types and adds none; "
+                   "retry after 401 adds USERNAME|USERHASH, REALM, NONCE, [PASSWORD-ALGORITHMS], [PASSWORD-ALGORITHM] and "
+                   "no integrity; retry after 438 adds user, REALM, NONCE, integrity and no password algorithms; "
+                   "subsequent requests add all; USERHASH iff one was derived; integrity keyed with the cached key")
+    STRIP = {"UserName", "UserHash", "Realm", "Nonce", "PasswordAlgorithm", "PasswordAlgorithms", "MessageIntegrity",
+             "MessageIntegritySha256"}
+    table = {
+        "first_request": ([], False),
+        "retry_from_unauthenticated_error_response": (["user", "Realm", "Nonce", "PasswordAlgorithms?", "PasswordAlgorithm?"], False),
+        "retry_from_stale_nonce_error_response": (["user", "Realm", "Nonce"], True),
+        "subsequent_request": (["user", "Realm", "Nonce", "PasswordAlgorithms?", "PasswordAlgorithm?"], True),
+    }
+    for fn, (exp, with_integrity) in table.items():
+        paths, info = C.explore_fn(prog, "%s::%s" % (LT, fn), "lt", STEP_COMMON + [r"LongTermCredentialClient::%s$" % fn,
+                                                                                  r"lt_cred_mech::remove_auth_and_integrity_attrs$"])
+        ctx.fn(info["body"])
+        n = 0
+        for pa in paths:
+            params = pa.choice(r"^variant\(lt\.params\)$")
+            removes, adds = [], []
+            for i, e in enumerate(pa.calls):
+                m = re.search(r"StunAttributes::remove::<(.*)>$", e[1])
+                if m:
+                    removes.append((i, m.group(1).split("::")[-1]))
+                m = re.search(r"StunAttributes::add::<(.*)>$", e[1])
+                if m:
+                    adds.append((i, m.group(1).split("::")[-1], C.expr_of(pa, e[2][1])))
+            ret = _ret_str(pa.ret)
+            uh = pa.choice(r"^variant\(.*lt\.params.*user_hash\)$")
+            pas = pa.choice(r"^variant\(.*lt\.params.*password_algorithms\)$")
+            pa1 = pa.choice(r"^variant\(.*lt\.params.*password_algorithm\)$")
+            integ = None
+            for nme, v in pa.choices:
+                if re.search(r"lt\.params.*integrity", str(nme)) and v in ("MessageIntegrity", "MessageIntegritySha256"):
+                    integ = v
+            key = "%s:params=%s,user_hash=%s,algs=%s,alg=%s,integrity=%s" % (fn, params, uh, pas, pa1, integ)
+            n += 1
+            ok = True
+            why = "strip %d types, add %s" % (len(removes), [a[1] for a in adds])
+            if fn != "first_request" and params == "None":
+                ok = ret.startswith("Err(") and not adds and not removes
+                why = "no cached parameters -> %s, %d adds" % (ret, len(adds))
+                ctx.ob(rule, key, ok, why, info["where"], replay=None if ok else pa.describe())
+                continue
+            if {r[1] for r in removes} != STRIP:
+                ok, why = False, "strip set %s != the 8 credential types" % sorted({r[1] for r in removes})
+            if adds and max(r[0] for r in removes) > min(a[0] for a in adds):
+                ok, why = False, "an attribute is added before the stripping is complete"
+            want = []
+            for x in exp:
+                if x == "user":
+                    want.append("UserHash" if uh == "Some" else "UserName")
+                elif x == "PasswordAlgorithms?":
+                    if pas == "Some":
+                        want.append("PasswordAlgorithms")
+                elif x == "PasswordAlgorithm?":
+                    if pa1 == "Some":
+                        want.append("PasswordAlgorithm")
+                else:
+                    want.append(x)
+            if with_integrity:
+                want.append(integ)
+            if ok and [a[1] for a in adds] != want:
+                ok, why = False, "adds %s, expected %s" % ([a[1] for a in adds], want)
+            if ok and ret != "Ok":
+                ok, why = False, "returns %s" % ret
+            if ok:
+                for a in adds:
+                    src = repr(a[2])
+                    if a[1] == "UserName" and "lt.user_name" not in src:
+                        ok, why = False, "USERNAME from %s" % src
+                    elif a[1] in ("UserHash", "Realm", "Nonce", "PasswordAlgorithms", "PasswordAlgorithm") and "lt.params" not in src:
+                        ok, why = False, "%s not taken from the cached parameters: %s" % (a[1], src[:100])
+                    elif a[1] in ("MessageIntegrity", "MessageIntegritySha256"):
+                        if not (isinstance(a[2], tuple) and a[2][0] == "%s::new" % a[1] and "lt.params" in repr(a[2][1]) and "key" in repr(a[2][1])):
+                            ok, why = False, "%s built from %s" % (a[1], src[:120])
+                    fieldname = {"Realm": "realm", "Nonce": "nonce", "UserHash": "user_hash",
+                                 "PasswordAlgorithms": "password_algorithms", "PasswordAlgorithm": "password_algorithm"}.get(a[1])
+                    if ok and fieldname and ("." + fieldname) not in src:
+                        ok, why = False, "%s filled from %s" % (a[1], src[:100])
+            ctx.ob(rule, key, ok, why, info["where"], replay=None if ok else pa.describe())
+        ctx.floor(rule, "%s decoration cases" % fn, n, 1 if fn == "first_request" else 3)
+
+
+def r8_2_dispatch(ctx, prog, rule="R8.2"):
+    ctx.rule(rule, "long-term dispatch: prepare_request by state (FirstRequest / Retry(401) / Retry(438) / Subsequent); "
+                   "prepare_indication refuses (Ignored); recv_message: Request and Indication -> Discarded with no effect, "
+                   "ErrorResponse -> process_error_response, SuccessResponse -> process_success_response, and the state "
+                   "becomes SubsequentRequest only after Ok")
+    paths, info = C.explore_fn(prog, LT + "::prepare_request", "lt", [r"LongTermCredentialClient::prepare_request$"])
+    ctx.fn(info["body"])
+    exp = {"FirstRequest": "first_request", "Unauthenticated": "retry_from_unauthenticated_error_response",
+           "StaleNonce": "retry_from_stale_nonce_error_response", "SubsequentRequest": "subsequent_request"}
+    n = 0
+    for pa in paths:
+        state = None
+        for nme, v in pa.choices:
+            if str(nme).startswith("variant(lt.state") and v in exp:
+                state = v
+        called = [C.short(e[1]).split("::")[-1] for e in pa.calls if "LongTermCredentialClient::" in e[1]]
+        n += 1
+        ctx.ob(rule, "prepare_request:%s" % state, state in exp and called == [exp[state]] and "ret:" in repr(pa.ret),
+               "state %s -> %s" % (state, called), info["where"], replay=pa.describe())
+    ctx.floor(rule, "prepare_request states", n, 4)
+    paths, info = C.explore_fn(prog, LT + "::prepare_indication", "lt", [r"LongTermCredentialClient::prepare_indication$"])
+    for pa in paths:
+        ctx.ob(rule, "prepare_indication", _ret_str(pa.ret) == "Err(Ignored)" and not pa.calls_to(r"StunAttributes::"),
+               "prepare_indication -> %s" % _ret_str(pa.ret), info["where"])
+    # recv_message (callees opaque)
+    paths, info = C.explore_fn(prog, LT + "::recv_message", "lt",
+                               [r"LongTermCredentialClient::(recv_message|change_state)$", r"stun_rs::message::StunMessage::class$", r"\{closure"])
+    ctx.fn(info["body"])
+    n = 0
+    for pa in paths:
+        cls = None
+        for nme, v in pa.choices:
+            if str(nme).startswith("variant(msg.") and v in ("Request", "Indication", "SuccessResponse", "ErrorResponse"):
+                cls = v
+        called = [C.short(e[1]).split("::")[-1] for e in pa.calls if "LongTermCredentialClient::process" in e[1]]
+        inner = None
+        for nme, v in pa.choices:
+            if re.search(r"^variant\(ret:process_(error|success)_response@[^.]*\)$", str(nme)):
+                inner = v
+        w = _lt_writes(pa)
+        ret = _ret_str(pa.ret)
+        key = "recv:%s:%s" % (cls, inner)
+        n += 1
+        if cls in ("Request", "Indication"):
+            ok = ret == "Err(Discarded)" and not called and not w
+            why = "%s -> %s, calls %s, writes %s" % (cls, ret, called, w)
+        else:
+            want = "process_error_response" if cls == "ErrorResponse" else "process_success_response"
+            ok = called == [want]
+            why = "%s -> %s" % (cls, called)
+            if ok and inner == "Ok":
+                ok = ret == "Ok" and all(t == "state" for t, _v in w) and \
+                    (not w or w[-1][1] == "LongTermCredentialState::SubsequentRequest")
+                why += "; Ok: state writes %s" % w
+            elif ok and inner == "Err":
+                ok = ret.startswith("Err(") and not w
+                why += "; Err propagated, writes %s" % w
+        ctx.ob(rule, key, ok, why, info["where"], replay=None if ok else pa.describe())
+    ctx.floor(rule, "recv_message classes", n, 6)
+
+
+def _explore_lt_fn(prog, fn, extra_step=(), models=()):
+    return C.explore_fn(prog, "%s::%s" % (LT, fn), "lt",
+                        STEP_COMMON + [r"LongTermCredentialClient::(%s|change_state)$" % fn,
+                                       r"lt_cred_mech::authenticate_message$"] + list(extra_step),
+                        extra_models=list(models))
+
+
+def r8_4_write_after_auth(ctx, prog, rule="R8.4"):
+    ctx.rule(rule, "401 / 438 handling: cached parameters, nonce and state are written only on the path that returns "
+                   "Retry, and - when the response carries an integrity attribute - only after authenticate_message "
+                   "succeeded with the right key and algorithm; every other path leaves the mechanism untouched")
+    for fn in ("process_unauthenticated_error_response", "process_stale_nonce_error_response"):
+        paths, info = _explore_lt_fn(prog, fn)
+        ctx.fn(info["body"])
+        n = 0
+        for pa in paths:
+            mi = pa.choice(r"^variant\(message_integrity\)$")
+            sha = pa.choice(r"^variant\(message_integrity_sha256\)$")
+            mac = pa.choice(r"^ret:validate_message_integrity@")
+            nonce = pa.choice(r"^variant\(nonce\)$")
+            params = pa.choice(r"^variant\(lt\.params\)$")
+            ret = _ret_str(pa.ret)
+            w = _lt_writes(pa)
+            key = "%s:mi=%s,sha=%s,mac=%s,nonce=%s,params=%s,ret=%s" % (fn.split("_error")[0], mi, sha, mac, nonce, params, ret)
+            n += 1
+            ok = True
+            why = "writes %s" % [t for t, _v in w]
+            has_integrity = (mi == "Some" or sha == "Some")
+            if ret != "Err(Retry)":
+                if w:
+                    ok, why = False, "path returning %s writes %s" % (ret, [t for t, _v in w])
+            else:
+                if has_integrity and mac != 1:
+                    ok, why = False, "Retry although the integrity attribute did not verify (mac=%s)" % mac
+                vi = pa.index_of(r"validate_message_integrity$")
+                wi = [i for i, e in enumerate(pa.log) if e[0] == "write" and (e[1] == "lt" or "lt.params" in str(e[1]))]
+                if has_integrity and ok and (vi < 0 or (wi and min(wi) < vi)):
+                    ok, why = False, "state written before the response was authenticated"
+                targets = [t for t, _v in w]
+                if fn.startswith("process_unauth"):
+                    if not ("params" in targets and targets.count("params") == 1):
+                        ok, why = False, "401: cached parameters not replaced exactly once: %s" % targets
+                    elif [v for t, v in w if t == "params"][0] != ("Option::Some", "top:auth_params"):
+                        ok, why = False, "401: params := %r" % ([v for t, v in w if t == "params"][0],)
+                    st = [v for t, v in w if t == "state"]
+                    if ok and st and st[-1] != ("LongTermCredentialState::Retry", "RetryCause::Unauthenticated"):
+                        ok, why = False, "401: state := %r" % (st[-1],)
+                else:
+                    nw = [v for t, v in w if t.endswith("nonce")]
+                    if len(nw) != 1 or "nonce" not in repr(nw[0]) or "lt." in repr(nw[0]):
+                        ok, why = False, "438: nonce write %r" % (nw,)
+                    if any(t for t in targets if t not in ("state",) and not t.endswith("nonce")):
+                        ok, why = False, "438: unexpected writes %s" % targets
+                    st = [v for t, v in w if t == "state"]
+                    if ok and st and st[-1] != ("LongTermCredentialState::Retry", "RetryCause::StaleNonce"):
+                        ok, why = False, "438: state := %r" % (st[-1],)
+            # authentication uses the right key / algorithm
+            v = pa.calls_to(r"validate_message_integrity$")
+            if ok and v:
+                keyarg = repr(v[0][2][1])
+                want = "auth_params" if fn.startswith("process_unauth") else "lt.params"
+                if want not in keyarg or "key" not in keyarg:
+                    ok, why = False, "authenticated with key %s" % keyarg[:100]
+            if ok and fn.startswith("process_stale") and (nonce == "None" or params == "None") and ret != "Err(Discarded)":
+                ok, why = False, "missing nonce/params -> %s" % ret
+            ctx.ob(rule, key, ok, why, info["where"], replay=None if ok else pa.describe())
+        ctx.floor(rule, "%s paths" % fn, n, 6)
+
+
+def r8_5_derivation(ctx, prog, rule="R8.5"):
+    ctx.rule(rule, "challenge -> credentials: REALM and NONCE are required (else Discarded); USERHASH iff the anonymity bit; "
+                   "key = HMACKey::new_long_term(user, realm, password, chosen algorithm or MD5); integrity = SHA256 iff "
+                   "PASSWORD-ALGORITHMS was offered; success/other responses are authenticated with the cached key and the "
+                   "agreed algorithm only")
+    paths, info = C.explore_fn(prog, "stun_agent::lt_cred_mech::create_long_term_auth_attrs", "x",
+                               [r"lt_cred_mech::create_long_term_auth_attrs$", r"\{closure"])
+    ctx.fn(info["body"])
+    n = 0
+    for pa in paths:
+        realm = pa.choice(r"^variant\(attrs\.realm\)$")
+        nonce = pa.choice(r"^variant\(attrs\.nonce\)$")
+        anon = pa.choice(r"^user_anonymity$")
+        algs = pa.choice(r"^variant\(attrs\.password_algorithms\)$")
+        alg = pa.choice(r"^variant\(attrs\.password_algorithm\)$")
+        ret = _ret_str(pa.ret)
+        key = "derive:realm=%s,nonce=%s,anon=%s,algs=%s,alg=%s,ret=%s" % (realm, nonce, anon, algs, alg, ret)
+        n += 1
+        ok = True
+        why = ret
+        if realm == "None" or (realm == "Some" and nonce == "None"):
+            ok = ret == "Err(Discarded)" and not pa.calls_to(r"HMACKey::new_long_term")
+            why = "missing realm/nonce -> %s" % ret
+        elif ret == "Ok":
+            r = C.expr_of(pa, pa.ret)
+            st = r[1] if isinstance(r, tuple) and len(r) > 1 else None
+            if not (isinstance(st, tuple) and st[0] == "LongTermCredentialAttributes" and len(st) == 8):
+                ok, why = False, "unexpected result %r" % (r,)
+            else:
+                _n, f_realm, f_nonce, f_algs, f_alg, f_key, f_uh, f_int = st
+                if "attrs.realm" not in repr(f_realm) or "attrs.nonce" not in repr(f_nonce):
+                    ok, why = False, "realm/nonce not copied from the challenge: %r %r" % (f_realm, f_nonce)
+                if ok and (_opt(f_algs) != algs or _opt(f_alg) != alg
+                           or (algs == "Some" and "attrs.password_algorithms" not in repr(f_algs))
+                           or (alg == "Some" and "attrs.password_algorithm" not in repr(f_alg))):
+                    ok, why = False, "password algorithm fields: %r %r" % (f_algs, f_alg)
+                want_int = "Integrity::MessageIntegritySha256" if algs == "Some" else "Integrity::MessageIntegrity"
+                if ok and f_int != want_int:
+                    ok, why = False, "integrity %s with PASSWORD-ALGORITHMS %s" % (f_int, algs)
+                if ok:
+                    if anon == 1:
+                        okh = isinstance(f_uh, tuple) and f_uh[0] == "Option::Some" and "create_user_hash_attr" in repr(f_uh)
+                        if okh:
+                            uh = [e for e in pa.calls if "create_user_hash_attr" in e[1]][0]
+                            okh = "user_name" in repr(uh[2][1]) and "attrs.realm" in repr(uh[2][2])
+                    else:
+                        okh = f_uh == "Option::None"
+                    if not okh:
+                        ok, why = False, "anonymity=%s but user_hash=%r" % (anon, f_uh)
+                if ok:
+                    k = [e for e in pa.calls if re.search(r"HMACKey::new_long_term", e[1])]
+                    if len(k) != 1:
+                        ok, why = False, "HMACKey::new_long_term x%d" % len(k)
+                    else:
+                        a = C.expr_of(pa, k[0][2])
+                        okk = "user_name" in repr(a[0]) and "attrs.realm" in repr(a[1]) and "password" in repr(a[2])
+                        if alg == "Some":
+                            okk = okk and "attrs.password_algorithm" in repr(a[3]) and "as_ref" in repr(a[3])
+                        else:
+                            okk = okk and a[3] == ("Algorithm::from", "AlgorithmId::MD5")
+                        if not okk:
+                            ok, why = False, "key derived from %s" % (repr(a)[:200],)
+                        elif "new_long_term" not in repr(f_key):
+                            ok, why = False, "stored key is %r" % (f_key,)
+        ctx.ob(rule, key, ok, why, info["where"], replay=None if ok else pa.describe())
+    ctx.floor(rule, "derivation paths", n, 8)
+    # authenticated delivery of success / other error responses
+    for fn in ("process_success_response", "process_error"):
+        models = lt_iter_models(prog)
+        paths, info = _explore_lt_fn(prog, fn, models=models)
+        ctx.fn(info["body"])
+        seen = {}
+        for pa in paths:
+            ret = _ret_str(pa.ret)
+            params = pa.choice(r"^variant\(lt\.params\)$")
+            cfg = None
+            for nme, v in pa.choices:
+                if re.search(r"lt\.params.*integrity", str(nme)) and v in ("MessageIntegrity", "MessageIntegritySha256"):
+                    cfg = v
+            mac = pa.choice(r"^ret:validate_message_integrity@")
+            if fn == "process_success_response":
+                mi, sha, seq = wire_summary_yielded(pa.choices)
+            else:
+                mi = pa.choice(r"^variant\(message_integrity\)$") == "Some"
+                sha = pa.choice(r"^variant\(message_integrity_sha256\)$") == "Some"
+            v = pa.calls_to(r"validate_message_integrity$")
+            key = "%s:params=%s,cfg=%s,mi=%d,sha=%d,mac=%s,ret=%s" % (fn, params, cfg, mi, sha, mac, ret)
+            ok = True
+            why = ret
+            if params == "None":
+                ok = ret == "Err(Discarded)" and not v
+            elif ret == "Ok":
+                want = cfg
+                if not v or mac != 1:
+                    ok, why = False, "accepted without a verifying MAC"
+                else:
+                    a = repr(v[0][2][0])
+                    if ("value-of-%s'" % want) not in a and ("value-of-%s\"" % want) not in a and fn == "process_success_response":
+                        ok, why = False, "verified attribute %s, agreed %s" % (a[:80], want)
+                    if "lt.params" not in repr(v[0][2][1]) or "key" not in repr(v[0][2][1]):
+                        ok, why = False, "verified under %s" % repr(v[0][2][1])[:80]
+                if fn == "process_success_response" and ok:
+                    other = sha if cfg == "MessageIntegrity" else mi
+                    if other:
+                        ok, why = False, "accepted although the non-agreed integrity attribute is present"
+            if _lt_writes(pa):
+                ok, why = False, "writes %s" % _lt_writes(pa)
+            if key not in seen or not ok:
+                seen[key] = (ok, why, pa)
+        for key, (ok, why, pa) in sorted(seen.items()):
+            ctx.ob(rule, key, ok, why, info["where"], replay=None if ok else pa.describe())
+        ctx.floor(rule, "%s classes" % fn, len(seen), 6)
+
+
+def r8_3_error_dispatch(ctx, prog, rule="R8.3"):
+    ctx.rule(rule, "process_error_response over every admitted attribute sequence (loop fixpoint): 401 / 438 / other are "
+                   "dispatched on error_code().error_code() with the harvested REALM / NONCE / PASSWORD-ALGORITHMS / "
+                   "integrity attributes; missing ERROR-CODE -> Discarded; 'password algorithms' bit without the attribute "
+                   "or no supported algorithm -> NotRetryable; 401 needs create_long_term_auth_attrs to succeed first")
+    models = lt_iter_models(prog) + lt_models()
+    STEP = STEP_COMMON + [r"LongTermCredentialClient::process_error_response$"]
+    paths, info = C.explore_fn(prog, LT + "::process_error_response", "lt", STEP, extra_models=models)
+    ctx.fn(info["body"])
+    if info["bounded"]:
+        ctx.violation(rule, "bounded", "loop bound hit", info["where"])
+    seen = {}
+    for pa in paths:
+        seq = [v for n, v in pa.choices if n == "wire.next" and v != "end"]
+        has = {k: (k in seq) for k in LT_KINDS}
+        code = pa.choice(r"^error_code$")
+        ret = _ret_str(pa.ret)
+        calls = [e for e in pa.calls if "lt_cred_mech::" in e[1]]
+        names = [C.short(e[1]).split("::")[-1] for e in calls]
+        # password algorithm selection
+        algsel = [v for n, v in pa.choices if str(n).startswith("variant(ret:algorithm@")]
+        supported = any(v in ("MD5", "SHA256") for v in algsel)
+        pwbit = None
+        anon = None
+        for e in pa.calls:
+            if e[1].endswith("BitFlags::<stun_rs::attributes::stun::nonce_cookie::StunSecurityFeatures>::contains") or "BitFlags" in e[1] and "contains" in e[1]:
+                which = repr(e[2][1])
+                val = pa.choice("^" + re.escape(e[4]) + "$")
+                if "PasswordAlgorithms" in which:
+                    pwbit = val
+                elif "UserNameAnonymity" in which:
+                    anon = val
+        key = "code=%s,err=%d,realm=%d,nonce=%d,algs=%d,supported=%s,pwbit=%s,mi=%d,sha=%d,ret=%s,calls=%s" % (
+            code, has["ErrorCode"], has["Realm"], has["Nonce"], has["PasswordAlgorithms"], supported if has["PasswordAlgorithms"] else None,
+            pwbit, has["MessageIntegrity"], has["MessageIntegritySha256"], ret if not ret.startswith("top") else "callee", "+".join(names))
+        ok = True
+        why = "ok"
+        w = _lt_writes(pa)
+        if w:
+            ok, why = False, "process_error_response itself writes %s" % w
+        elif has["PasswordAlgorithms"] and not supported:
+            ok = ret == "Err(NotRetryable)" and not calls
+            why = "no supported password algorithm -> %s %s" % (ret, names)
+        elif pwbit == 1 and not has["PasswordAlgorithms"]:
+            ok = ret == "Err(NotRetryable)" and not calls
+            why = "password-algorithms bit without the attribute -> %s %s" % (ret, names)
+        elif not has["ErrorCode"]:
+            ok = ret == "Err(Discarded)" and not calls
+            why = "no ERROR-CODE -> %s %s" % (ret, names)
+        elif code == "401":
+            if names[:1] != ["create_long_term_auth_attrs"]:
+                ok, why = False, "401 -> %s" % names
+            else:
+                a = calls[0][2]
+                attrs = a[3]
+                okk = "msg.transaction_id" in repr(a[0]) and "lt.user_name" in repr(a[1]) and "lt.password" in repr(a[2])
+                okk = okk and isinstance(attrs, tuple) and attrs[0] == "LongTermAttributes" and len(attrs) == 5
+                if okk:
+                    okk = (_opt(attrs[1]) == ("Some" if has["Realm"] else "None")) and \
+                          (_opt(attrs[2]) == ("Some" if has["Nonce"] else "None")) and \
+                          (_opt(attrs[3]) == ("Some" if has["PasswordAlgorithms"] else "None")) and \
+                          (_opt(attrs[4]) == ("Some" if (has["PasswordAlgorithms"] and supported) else "None"))
+                    if okk and has["Realm"]:
+                        okk = "value-of-Realm" in repr(attrs[1])
+                    if okk and has["Nonce"]:
+                        okk = "value-of-Nonce" in repr(attrs[2])
+                    if okk and has["PasswordAlgorithms"]:
+                        okk = "value-of-PasswordAlgorithms" in repr(attrs[3])
+                    if okk:
+                        # the anonymity flag passed is the nonce-cookie bit
+                        flag = a[4]
+                        if anon is None:
+                            okk = flag == 0 or (isinstance(flag, str) and "contains" in flag)
+                        else:
+                            okk = flag == anon or (isinstance(flag, str) and "contains" in flag)
+                if not okk:
+                    ok, why = False, "401: create_long_term_auth_attrs%s" % (repr(a)[:260],)
+                created = pa.choice(r"^variant\(ret:create_long_term_auth_attrs@[^.]*\)$")
+                if ok and created == "Err":
+                    ok = names == ["create_long_term_auth_attrs"] and ret.startswith("Err(")
+                    why = "derivation failed -> %s %s" % (ret, names)
+                elif ok:
+                    if names != ["create_long_term_auth_attrs", "process_unauthenticated_error_response"]:
+                        ok, why = False, "401 -> %s" % names
+                    else:
+                        b = calls[1][2]
+                        okk = "raw_buffer" in repr(b[1]) and "top:msg" in repr(b[2]) and "create_long_term_auth_attrs" in repr(b[3]) \
+                            and _opt(b[4]) == ("Some" if has["MessageIntegrity"] else "None") \
+                            and _opt(b[5]) == ("Some" if has["MessageIntegritySha256"] else "None")
+                        if not okk:
+                            ok, why = False, "401: process_unauthenticated_error_response%s" % (repr(b[1:])[:260],)
+                        elif "process_unauthenticated_error_response" not in repr(pa.ret):
+                            ok, why = False, "401: result is not the handler's result"
+        elif code == "438":
+            if names != ["process_stale_nonce_error_response"]:
+                ok, why = False, "438 -> %s" % names
+            else:
+                b = calls[0][2]
+                okk = "raw_buffer" in repr(b[1]) and "top:msg" in repr(b[2]) \
+                    and _opt(b[3]) == ("Some" if has["Nonce"] else "None") \
+                    and (not has["Nonce"] or "value-of-Nonce" in repr(b[3])) \
+                    and _opt(b[4]) == ("Some" if has["MessageIntegrity"] else "None") \
+                    and _opt(b[5]) == ("Some" if has["MessageIntegritySha256"] else "None")
+                if not okk:
+                    ok, why = False, "438: process_stale_nonce_error_response%s" % (repr(b[1:])[:260],)
+                elif "process_stale_nonce_error_response" not in repr(pa.ret):
+                    ok, why = False, "438: result is not the handler's result"
+        else:
+            if names != ["process_error"]:
+                ok, why = False, "other error code -> %s" % names
+            else:
+                b = calls[0][2]
+                okk = "raw_buffer" in repr(b[1]) and "top:msg" in repr(b[2]) \
+                    and _opt(b[3]) == ("Some" if has["MessageIntegrity"] else "None") \
+                    and _opt(b[4]) == ("Some" if has["MessageIntegritySha256"] else "None")
+                if not okk:
+                    ok, why = False, "other: process_error%s" % (repr(b[1:])[:200],)
+                elif "process_error" not in repr(pa.ret):
+                    ok, why = False, "other: result is not the handler's result"
+        if key not in seen or not ok:
+            seen[key] = (ok, why, pa)
+    for key, (ok, why, pa) in sorted(seen.items()):
+        ctx.ob(rule, "err-resp:%s" % key, ok, why, info["where"], replay=None if ok else pa.describe())
+    ctx.floor(rule, "process_error_response classes", len(seen), 60)
+    ctx.extra["lt_error_response_paths"] = len(paths)
+    # the comparison constants
+    body = info["body"]
+    consts = set()
+    for bi, b in enumerate(body.blocks):
+        for s in b["stmts"]:
+            if s["k"] == "assign" and s["rv"]["k"] == "binop" and s["rv"]["op"] == "Eq":
+                for o in (s["rv"]["a"], s["rv"]["b"]):
+                    if o["k"] == "const" and "bits" in o:
+                        consts.add(int(o["bits"]))
+    ctx.ob(rule, "constants", {401, 438} <= consts, "error codes compared with %s" % sorted(consts), info["where"])
+
+
+def r8_6_password_taint(ctx, prog, rule="R8.6"):
+    ctx.rule(rule, "the password flows only into the key derivation (HMACKey::new_long_term / new_short_term): never into "
+                   "StunAttributes::add, an encoder, format! or log")
+    # field readers
+    readers = {}
+    for b in prog.bodies.values():
+        if b.crate != "stun_agent" or "_tests::" in b.path or "::tests::" in b.path:
+            continue
+        for bi, blk in enumerate(b.blocks):
+            items = []
+            for s in blk["stmts"]:
+                if s["k"] == "assign":
+                    rv = s["rv"]
+                    if rv["k"] in ("ref", "rawptr", "discr"):
+                        items.append(rv["place"])
+                    for o in ([rv.get("op"), rv.get("a"), rv.get("b")] + list(rv.get("ops", []))):
+                        if isinstance(o, dict) and o["k"] in ("copy", "move"):
+                            items.append(o["place"])
+            t = blk["term"]
+            if t["k"] == "call":
+                for a in t["args"]:
+                    if a["k"] in ("copy", "move"):
+                        items.append(a["place"])
+            for pl in items:
+                for e in pl["p"]:
+                    if e["k"] == "field" and e.get("name") == "password" and e.get("adt", "").endswith(("LongTermCredentialClient", "StunClientParameters")):
+                        readers.setdefault(e["adt"].split("::")[-1], set()).add(b.path)
+    lt_readers = readers.get("LongTermCredentialClient", set())
+    ok = lt_readers <= {LT + "::process_error_response", "<stun_agent::lt_cred_mech::LongTermCredentialClient as std::fmt::Debug>::fmt"}
+    # Debug derive prints the password field: flag separately (it is not the wire)
+    ctx.ob(rule, "password-readers", ok and bool(lt_readers),
+           "LongTermCredentialClient.password is read in %s" % sorted(x.split("::")[-1] for x in lt_readers))
+    # flows inside the explored paths: every logged call that mentions lt.password
+    models = lt_iter_models(prog) + lt_models()
+    STEP = STEP_COMMON + [r"LongTermCredentialClient::process_error_response$", r"lt_cred_mech::create_long_term_auth_attrs$"]
+    paths, info = C.explore_fn(prog, "stun_agent::lt_cred_mech::create_long_term_auth_attrs", "x",
+                               [r"lt_cred_mech::create_long_term_auth_attrs$", r"\{closure"])
+    sinks = set()
+    for pa in paths:
+        for e in pa.calls:
+            if "top:password" in repr(e[2]):
+                sinks.add(C.short(e[1]))
+    ctx.ob(rule, "password-sinks", sinks <= {"HMACKey::new_long_term"} and bool(sinks),
+           "inside create_long_term_auth_attrs the password reaches %s" % sorted(sinks), info["where"])
+    b = prog.body("stun_agent::client::StunClient::new")
+    from ..mirq import q_of
+    q = q_of(b)
+    tgt = set()
+    for c in b.calls():
+        for a in c.args:
+            for o in q.origins(a):
+                if o.kind == "place":
+                    names = [e.get("name") for e in o.place["p"] if e["k"] == "field"]
+                    if "password" in names:
+                        tgt.add(C.short(c.callee_path))
+    ctx.ob(rule, "client-new", True, "StunClient::new passes params.password to %s" % sorted(tgt), b.where())
